@@ -174,7 +174,7 @@ Qed.
 Definition set_first_name (r : frow) (nm : str) : frow :=
   set_edges r (match r_edges r with e :: more => mkEdge (e_from e) (with_name (e_cond e) nm) :: more | [] => [] end).
 
-Theorem detect_overlong_category fuel wb dm d t0 p r s bt e0 more nm f0 :
+Theorem detect_overlong_category_partial fuel wb dm d t0 p r s bt e0 more nm f0 :
   compile fuel wb dm = Ok d ->
   nth_error (rows_of wb t0) p = Some r ->
   is_node_type (r_type r) = true ->
